@@ -309,7 +309,12 @@ func execLog(p LProg) (*lhist, func()) {
 			proc = bp
 			cleanup = append(cleanup, func() { _ = bp.Shutdown(context.Background()) })
 		case lBatchNil:
-			bp := sdklog.NewBatchProcessor(nil, sdklog.WithExportInterval(time.Hour))
+			// nil exporter under every option combination of LProg.BOpt
+			nopts := p.BOpt.options()
+			if p.BOpt.Set&8 == 0 {
+				nopts = append(nopts, sdklog.WithExportInterval(time.Hour))
+			}
+			bp := sdklog.NewBatchProcessor(nil, nopts...)
 			proc = bp
 			cleanup = append(cleanup, func() { _ = bp.Shutdown(context.Background()) })
 		}
@@ -649,7 +654,7 @@ func normaliseL(p *LProg) {
 	fix(p.Post)
 	hasOpt, hasRe := false, false
 	for _, k := range p.Procs {
-		hasOpt = hasOpt || k == lBatchOpt || k == lBatchRX
+		hasOpt = hasOpt || k == lBatchOpt || k == lBatchRX || k == lBatchNil
 		hasRe = hasRe || k == lRecRe
 	}
 	if !hasOpt {
@@ -721,6 +726,10 @@ func logInfo(p LProg, cl map[string]bool) vk.Info {
 			info.ClassIf(o.Set&8 != 0 && o.IvMs == 1, "batch_interval_1ms")
 			info.ClassIf(o.Set == 0, "batch_no_option(defaults)")
 		}
+		if k == lBatchNil {
+			info.ClassIf(p.BOpt.Set != 0, "batch(nil)_with_options")
+			info.ClassIf(p.BOpt.Set == 0, "batch(nil)_default_options")
+		}
 		if k == lRecRe {
 			for b, n := range []string{"Shutdown", "Logger+Emit", "ForceFlush", "Emit(old logger)"} {
 				info.ClassIf(cl["provider_shutdown_issued"] && p.RecX&(1<<b) != 0, "reentrant_processor:"+n)
@@ -748,7 +757,7 @@ func runLogSeq(p LProg) ([]vk.Violation, vk.Info) {
 func TestLogLifecycle(t *testing.T) {
 	vk.Run(t, vk.Spec[LProg]{
 		Property: "C15", Check: "log_lifecycle",
-		Rule: "generated op lists (1-48 ops: Logger / Emit through the logger obtained at construction, through loggers obtained earlier or right now / ForceFlush / Shutdown with live or already-cancelled contexts, repeated) on a LoggerProvider with 0-4 processors drawn from recording processors (one failing), SimpleProcessor and BatchProcessor around a recording exporter, around nil and around a re-entrant exporter whose Shutdown emits a record through the same provider, the zero values of SimpleProcessor and BatchProcessor, BatchProcessors with generated options (queue / batch / buffer size, interval, timeout each unset, zero, negative or tiny; optionally with an exporter that emits from Export) and a recording processor whose Shutdown calls back into the provider (Shutdown / Logger+Emit / ForceFlush / Emit); contexts live, cancelled or past their deadline (also for Emit); " +
+		Rule: "generated op lists (1-48 ops: Logger / Emit through the logger obtained at construction, through loggers obtained earlier or right now / ForceFlush / Shutdown with live or already-cancelled contexts, repeated) on a LoggerProvider with 0-4 processors drawn from recording processors (one failing), SimpleProcessor and BatchProcessor around a recording exporter, around nil and around a re-entrant exporter whose Shutdown emits a record through the same provider, the zero values of SimpleProcessor and BatchProcessor, BatchProcessors with generated options (queue / batch / buffer size, interval, timeout each unset, zero, negative or tiny; around a recording exporter, optionally one that emits from Export, and around nil) and a recording processor whose Shutdown calls back into the provider (Shutdown / Logger+Emit / ForceFlush / Emit); contexts live, cancelled or past their deadline (also for Emit); " +
 			"non-trivial = at least one processor, a Shutdown with a live context returned nil and an Emit follows it; distinct = distinct case encodings",
 		Quick: 2000, Thorough: 25000,
 		Gen: genLogSeq, Run: runLogSeq,
